@@ -28,6 +28,9 @@ PG_CFGS = {
     "c16_shared": None, "c16_disjoint_sync": None,
     "c16_FINDING_txid": "TxIdCommitOrder", "c16_FINDING_logid": "LogIdCommitOrder",
     "c09_NEG_noadv": "LinearChain",
+    # design of the async block builder (spec/AsyncBlocks.tla); the FINDING cfgs document C34's known finding
+    "AsyncBlocks_ordered": None, "AsyncBlocks_unordered_chain": None,
+    "AsyncBlocks_FINDING_unordered": "DigestCovers", "AsyncBlocks_FINDING_quiescence": "CoverAtQuiescence",
 }
 PG_BY_PROP = {
     "C06": ["c06_two", "c06_three", "c06_cross", "c06_NEG_nolock"],
@@ -37,7 +40,16 @@ PG_BY_PROP = {
     "C16": ["c16_shared", "c16_disjoint_sync", "c16_FINDING_txid", "c16_FINDING_logid"],
     "C09": ["c16_shared", "c16_disjoint_sync", "c09_NEG_noadv"],
     "C12": [],
+    "C34": ["AsyncBlocks_ordered", "AsyncBlocks_unordered_chain", "AsyncBlocks_FINDING_unordered", "AsyncBlocks_FINDING_quiescence"],
 }
+# predicates whose known-finding signature carries the scenario family
+FAMILY_SIG = ("StepC_C16_TxIdCommitOrder", "StepC_C16_LogIdCommitOrder", "Inv_C34_BlockDigest")
+
+
+def _tlc_design(n):
+    if n.startswith("AsyncBlocks_"):
+        return vlib.tlc("AsyncBlocks", n + ".cfg", workers=2, timeout=900)
+    return vlib.tlc("MC_LedgerPG", "MC_LedgerPG_%s.cfg" % n, workers=2, timeout=600)
 
 TIERS = {
     "quick": dict(runs=[dict(seed_off=0, preempt=2, max_runs=150, scale="1")], parts=4),
@@ -47,7 +59,8 @@ TIERS = {
 }
 
 
-FAMILY_OF = {"C06": "overdraft/", "C13": "ik/", "C14": "ref/", "C15": "revert/", "C16": "ids/", "C09": "ids/", "C12": "import/"}
+FAMILY_OF = {"C06": "overdraft/", "C13": "ik/", "C14": "ref/", "C15": "revert/", "C16": "ids/", "C09": "ids/", "C12": "import/",
+             "C34": "blocks/"}
 
 
 def build_conc(tier, seed, prop):
@@ -61,8 +74,7 @@ def build_conc(tier, seed, prop):
         # (1) design level
         import concurrent.futures as cf0
         with cf0.ThreadPoolExecutor(max_workers=7) as ex0:
-            pg_runs = dict(zip(my_cfgs, ex0.map(
-                lambda n: vlib.tlc("MC_LedgerPG", "MC_LedgerPG_%s.cfg" % n, workers=2, timeout=600), my_cfgs)))
+            pg_runs = dict(zip(my_cfgs, ex0.map(_tlc_design, my_cfgs)))
         for name, expect in my_cfgs.items():
             r = pg_runs[name]
             s = r.summary()
@@ -164,7 +176,7 @@ def evaluate_conc(c, prop, d):
             others[pred] = others.get(pred, 0) + 1
             continue
         fam = cases.get(case, {}).get("family", "?")
-        sig = "%s/%s" % (pred, fam) if pred.startswith("StepC_C16_") and "CommitOrder" in pred else pred
+        sig = "%s/%s" % (pred, fam) if pred in FAMILY_SIG else pred
         if sig not in mine:
             if lines is None:
                 lines = open(os.path.join(d, "trace.ndjson")).read().splitlines()
@@ -193,7 +205,7 @@ def evaluate_conc(c, prop, d):
 
 
 def vprop(fam):
-    for pre, p in (("overdraft", "C06"), ("ik/", "C13"), ("ref/", "C14"), ("revert/", "C15"), ("ids/", "C16"), ("import/", "C12")):
+    for pre, p in (("overdraft", "C06"), ("ik/", "C13"), ("ref/", "C14"), ("revert/", "C15"), ("ids/", "C16"), ("import/", "C12"), ("blocks/", "C34")):
         if fam.startswith(pre):
             return p
     return ""
@@ -253,6 +265,15 @@ def m_swap_ids(line):
         return False
     a, b = oks[0], oks[1]
     line["cseq"][a], line["cseq"][b] = line["cseq"][b], line["cseq"][a]
+    return True
+
+
+def m_drop_block(line):
+    """Pretend the last block was never built: at quiescence the blocks no longer reach the last log."""
+    bs = line.get("blk", {}).get("l1") or []
+    if not bs or not line.get("quiet"):
+        return False
+    bs.pop()
     return True
 
 
